@@ -199,7 +199,7 @@ Step(m, e) ==
     [] e.ev = "SetOp" -> [m EXCEPT !.results = Append(Pop2(m.results), m.results[Len(m.results) - 1])]
     [] e.ev = "Values" -> [m EXCEPT !.results = Append(m.results, Rel(FALSE, [i \in 1 .. e.n |-> ""]))]
     [] e.ev = "SubqueryEnd" -> [m EXCEPT !.results = Pop(m.results)]
-    [] e.ev = "Take" -> [m EXCEPT !.takes = Append(m.takes, <<e.name, e.q>>)]
+    [] e.ev = "Take" -> [m EXCEPT !.takes = Append(m.takes, <<e.name, e.q, e.kind>>)]
     [] OTHER -> m
 
 \* a walk that is complete leaves exactly the statement's relation
@@ -224,7 +224,12 @@ FrameOk(m) ==
 
 \* C03 beyond SQLite: the statement selects the same row positions in the same places as the statement
 \* emitted for SQLite (whose result was validated by execution): the same sequence of (limit, offset)
-TakesOk(m) == ~m.hasTakes \/ m.takes = m.expectTakes
+\* and, where that statement orders (next to a limit, or at its end: entry "final"), orders by keys of the same number and
+\* directions; where it does not order, any order is admissible (DISTINCT ON and T-SQL's OFFSET..FETCH need one)
+TakeEq(d, got, exp) == /\ got[1] = exp[1] /\ got[2] = exp[2]
+                       /\ (got[3] = exp[3] \/ exp[3] = "")
+TakesOk(m) == ~m.hasTakes \/ (/\ Len(m.takes) = Len(m.expectTakes)
+                               /\ \A i \in 1 .. Len(m.takes) : TakeEq(m.dialect, m.takes[i], m.expectTakes[i]))
 
 Begin(e) == [M0 EXCEPT !.dialect = e.q, !.tables = e.tabs, !.world = e.alias, !.expect = e.expect, !.hasExpect = e.has_expect, !.ordered = e.ordered,
                        !.expectTakes = e.expect_takes, !.hasTakes = e.has_takes]
